@@ -3,7 +3,7 @@ import sys, os; sys.path.insert(0,'/verif')
 import z3, contracts, specs, time
 from pvc import smt
 from pvc.models import MODELS
-from pvc import iomodel, hdrmodel, wrmodel, bytesmodel
+from pvc import iomodel, hdrmodel, wrmodel, bytesmodel, npelem
 from pvc.source import Source
 from pvc.verify import Verifier
 reg=contracts.load_all()
